@@ -914,11 +914,17 @@ async fn input_processing(
     let other_input_labels = Mutex::new(vec![None; circ.max_reg_count]);
     if is_contrib {
         debug!("Contributing party, sending masked inputs and labels");
-        let labels_of_other_inputs: Vec<Option<Label>> = masked_inputs
-            .iter()
-            .enumerate()
-            .map(|(w, input)| input.map(|b| input_labels[w] ^ (b & delta)))
-            .collect();
+        // A peer may claim a masked input for a register that is not an input wire; there is no
+        // input label for it, which is an error and not a reason to panic.
+        let mut labels_of_other_inputs: Vec<Option<Label>> = vec![None; masked_inputs.len()];
+        for (w, input) in masked_inputs.iter().enumerate() {
+            if let Some(b) = input {
+                let Some(label) = input_labels.get(w) else {
+                    return Err(MpcError::InstWithoutInput(w).into());
+                };
+                labels_of_other_inputs[w] = Some(*label ^ (*b & delta));
+            }
+        }
         send_to(channel, p_eval, "labels", &labels_of_other_inputs).await?;
     } else {
         debug!("Evaluator party, receiving masked inputs and labels");
